@@ -983,6 +983,8 @@ static Token *preprocess2(Token *tok) {
     }
 
     if (equal(tok, "ifdef")) {
+      if (tok->next->kind != TK_IDENT)
+        error_tok(tok->next, "macro name must be an identifier");
       bool defined = find_macro(tok->next);
       push_cond_incl(tok, defined);
       tok = skip_line(tok->next->next);
@@ -992,6 +994,8 @@ static Token *preprocess2(Token *tok) {
     }
 
     if (equal(tok, "ifndef")) {
+      if (tok->next->kind != TK_IDENT)
+        error_tok(tok->next, "macro name must be an identifier");
       bool defined = find_macro(tok->next);
       push_cond_incl(tok, !defined);
       tok = skip_line(tok->next->next);
